@@ -445,3 +445,7 @@ def run(ctx):
     r2(ctx, find)
     r3(ctx)
     r4(ctx, find, mv)
+    import rules.C11 as c11
+    ctx.borrow(c11.r4, {'C11.R4': 'C08.R6'},
+               'the source bits of the lookup key are the master number of QQ: two masters with the same number share the '
+               'definitions that are restricted to one of them')
